@@ -305,3 +305,681 @@ Proof.
   repeat split; try (vm_compute; reflexivity).
   intros n. apply repeat_fix. vm_compute. reflexivity.
 Qed.
+
+(* ================= protocol theorems (for all configurations, snapshots,
+   histories): in-order convergence, visibility on return, drift handling,
+   the general reorder theorem ================= *)
+
+Import C10Proofs.
+
+Lemma calc_update_explicit : forall c s1 s2 hello,
+  shallow c = false ->
+  length (s_time s1) = length (s_time s2) ->
+  cfg_wf c (length (s_time s1)) = true ->
+  snaps_in_range s1 s2 = true ->
+  calc_update c false (mk_data c s2) (last_data c hello s1)
+  = Some (mk_upd (deep_prs c s1 s2) (s_q s2 - s_q s1) (s_m s2 - s_m s1)
+            (checksum (sum64 (filter_time (s_time s2) (tracked c))) (s_q s2) (s_m s2))).
+Proof.
+  intros c s1 s2 hello Hsh Hlen Hwf Hrng.
+  destruct (snaps_in_range_inv s1 s2 Hrng) as [Hdl [Hq1 [Hq2 [Hq3 [Hm1 [Hm2 Hm3]]]]]].
+  set (n := length (s_time s1)) in *.
+  unfold calc_update. rewrite (mk_data_deep c s2 Hsh).
+  cbn [d_mtime d_q d_m d_check].
+  assert (HA : exists A, d_mtime (last_data c hello s1) = Some A /\
+             length A = clen c n /\
+             (forall p, In p (client_tracked c) -> nth p A 0 = nth p (mirror c s1) 0) /\
+             d_q (last_data c hello s1) = s_q s1 /\
+             d_m (last_data c hello s1) = s_m s1).
+  { unfold last_data. destruct hello.
+    - exists (mirror c s1). cbn [hello_data d_mtime d_q d_m].
+      repeat split; try reflexivity.
+      apply (mirror_length c n s1 eq_refl).
+    - exists (srv_time c s1). rewrite (mk_data_deep c s1 Hsh).
+      cbn [d_mtime d_q d_m]. repeat split; try reflexivity.
+      + apply (srv_time_length c n s1 eq_refl).
+      + intros p Hp. rewrite (mirror_nth c n Hwf s1 eq_refl p Hp).
+        now rewrite (srv_time_nth c n s1 eq_refl p Hp). }
+  destruct HA as [A [HA1 [HA2 [HA3 [HA4 HA5]]]]].
+  rewrite HA1, HA4, HA5.
+  rewrite (gen_deep_ok c s1 s2 Hlen Hwf A HA2 HA3).
+  rewrite (q_delta _ _ Hq1 Hq2 Hq3). rewrite (m_delta _ _ Hm1 Hm2 Hm3).
+  reflexivity.
+Qed.
+
+Lemma roundtrip_explicit : forall c s1 s2,
+  shallow c = false ->
+  length (s_time s1) = length (s_time s2) ->
+  cfg_wf c (length (s_time s1)) = true ->
+  snaps_in_range s1 s2 = true ->
+  client_apply c (mk_upd (deep_prs c s1 s2) (s_q s2 - s_q s1) (s_m s2 - s_m s1)
+            (checksum (sum64 (filter_time (s_time s2) (tracked c))) (s_q s2) (s_m s2)))
+     (mirror c s1) (s_q s1) (s_m s1)
+  = Some (mirror c s2, s_q s2, s_m s2, true).
+Proof.
+  intros c s1 s2 Hsh Hlen Hwf Hrng.
+  destruct (roundtrip_deep_eq c s1 s2 false Hsh Hlen Hwf Hrng) as [u [Hu Ha]].
+  rewrite (calc_update_explicit c s1 s2 false Hsh Hlen Hwf Hrng) in Hu.
+  injection Hu as Hu. now subst u.
+Qed.
+
+(* some synchronised tick changed => the diff has an index *)
+Lemma changed_prs : forall c s1 s2,
+  length (s_time s1) = length (s_time s2) ->
+  cfg_wf c (length (s_time s1)) = true ->
+  tracked_changed c s1 s2 = true ->
+  deep_prs c s1 s2 <> [].
+Proof.
+  intros c s1 s2 Hlen Hwf Hch. unfold tracked_changed in Hch.
+  apply existsb_exists in Hch. destruct Hch as [i [Hi Hne]].
+  apply negb_true_iff, N.eqb_neq in Hne.
+  set (n := length (s_time s1)) in *.
+  (* the client position of machine index i *)
+  assert (Hp : exists pp, In pp (client_tracked c) /\ sigma c pp = i).
+  { unfold client_tracked, sigma. destruct (sync_schema c).
+    - exists i. split; [exact Hi|reflexivity].
+    - destruct (In_nth _ _ 0%nat Hi) as [k [Hk Hnth]].
+      exists k. split; [apply in_seq; lia|exact Hnth]. }
+  destruct Hp as [pp [Hpp Hs]].
+  assert (Hd : nth pp (mirror c s1) 0 <> nth pp (srv_time c s2) 0).
+  { rewrite (mirror_nth c n Hwf s1 eq_refl pp Hpp).
+    rewrite (srv_time_nth c n s2 (eq_sym Hlen) pp Hpp). now rewrite Hs. }
+  unfold deep_prs. intros He.
+  pose proof (deep_pairs_in (mirror c s1) (srv_time c s2) (client_tracked c) pp Hpp Hd) as Hin.
+  rewrite He in Hin. destruct Hin.
+Qed.
+
+Lemma d_q_last : forall c h x, d_q (last_data c h x) = s_q x.
+Proof. intros c [|] x; reflexivity. Qed.
+Lemma d_q_mk : forall c y, d_q (mk_data c y) = s_q y.
+Proof. reflexivity. Qed.
+Lemma last_data_false : forall c x, last_data c false x = mk_data c x.
+Proof. reflexivity. Qed.
+Lemma calc_upd_mk : forall p y last, shallow (p_codec p) = false ->
+  calc_upd p (mk_data (p_codec p) y) last = calc_update (p_codec p) false (mk_data (p_codec p) y) last.
+Proof. intros p y last H. unfold calc_upd. rewrite (mk_data_deep _ y H). cbn [d_mtime]. now rewrite H. Qed.
+Lemma idx_of_nil : forall prs, idx_of prs = [] -> prs = [].
+Proof. intros [|a r] H; [reflexivity|discriminate]. Qed.
+Lemma mk_data_some : forall c y, exists t, d_mtime (mk_data c y) = Some t.
+Proof. intros. eexists. reflexivity. Qed.
+
+Lemma cl_update_acc : forall p c u t' q' m',
+  client_apply (p_codec p) u (cl_t c) (cl_q c) (cl_m c) = Some (t', q', m', true) -> t' <> [] ->
+  cl_update p c u = Some (mk_client t' q' m' (cl_stuck c) (cl_need c) (cl_errs c), true).
+Proof.
+  intros p c u t' q' m' H Hn. unfold cl_update. rewrite H.
+  destruct t' as [|a r]; [congruence|reflexivity].
+Qed.
+
+Lemma mirror_nonempty : forall c y, cfg_wf c (length (s_time y)) = true -> tracked c <> [] ->
+  mirror c y <> [].
+Proof.
+  intros c y Hwf Ht Hm.
+  pose proof (mirror_length c _ y eq_refl) as Hl. rewrite Hm in Hl. cbn in Hl.
+  unfold clen in Hl. destruct (tracked c) as [|i r] eqn:E; [congruence|].
+  destruct (sync_schema c).
+  - assert (Hi : (i < length (s_time y))%nat) by (apply (wf_all_lt c _ Hwf); rewrite E; now left). lia.
+  - cbn in Hl. lia.
+Qed.
+
+Local Opaque client_apply calc_update calc_update_muts w8 w16 w32 w64 hello_time mk_data mirror checksum.
+
+Definition synced_l (p : pcfg) (s : st) (x : snap) (hello : bool) : Prop :=
+  st_err s = false /\ st_wire s = [] /\ st_pend s = None /\ st_conn s = true /\
+  cl_stuck (st_cl s) = false /\ cl_need (st_cl s) = false /\
+  client_view s = (mirror (p_codec p) x, s_q x, s_m x) /\
+  sv_last (st_sv s) = last_data (p_codec p) hello x.
+
+Lemma mk_data_mtime : forall c y, shallow c = false ->
+  d_mtime (mk_data c y) = Some (srv_time c y).
+Proof. intros c y H. now rewrite (mk_data_deep c y H). Qed.
+
+Lemma push_round : forall p s x y hello,
+  p_mut p = false -> shallow (p_codec p) = false ->
+  synced_l p s x hello ->
+  sv_latest (st_sv s) = Some (mk_data (p_codec p) y) ->
+  length (s_time x) = length (s_time y) ->
+  cfg_wf (p_codec p) (length (s_time x)) = true ->
+  snaps_in_range x y = true ->
+  s_q x <> s_q y ->
+  tracked_changed (p_codec p) x y = true ->
+  tracked (p_codec p) <> [] ->
+  synced_l p (exec p s [Push; Settle]) y false.
+Proof.
+  intros p s x y hello Hmut Hsh Hsy Hlat Hlen Hwf Hrng Hq Hch Htr.
+  destruct Hsy as [He [Hw [Hpe [Hco [Hst [Hne [Hv Hl]]]]]]].
+  destruct s as [sv cl wire pend cur err sil rej syn np conn ip].
+  destruct cl as [t q m stuck need errs]. destruct sv as [last latest queue].
+  unfold client_view in Hv. cbn in He, Hw, Hpe, Hco, Hst, Hne, Hv, Hl, Hlat.
+  injection Hv as Ht Hq' Hm'. subst err wire pend conn stuck need t q m last latest.
+  unfold exec. cbn [fold_left]. unfold step at 2. cbn [st_err].
+  unfold do_push.
+  cbn [st_sv st_conn negb sv_latest sv_last].
+  rewrite d_q_last, d_q_mk.
+  replace (s_q x =? s_q y) with false by (symmetry; now apply N.eqb_neq).
+  rewrite andb_false_r, Hmut.
+  destruct (mk_data_some (p_codec p) y) as [ty Hty]. rewrite Hty.
+  rewrite (calc_upd_mk p y _ Hsh).
+  rewrite (calc_update_explicit _ x y hello Hsh Hlen Hwf Hrng).
+  pose proof (roundtrip_explicit _ x y Hsh Hlen Hwf Hrng) as HR.
+  remember (mk_upd (deep_prs (p_codec p) x y) (s_q y - s_q x) (s_m y - s_m x)
+             (checksum (sum64 (filter_time (s_time y) (tracked (p_codec p)))) (s_q y) (s_m y))) as U eqn:EU.
+  assert (Hidx : u_idx U <> []).
+  { subst U. cbn [u_idx mk_upd]. intros Hn. apply (changed_prs _ x y Hlen Hwf Hch).
+    now apply idx_of_nil. }
+  destruct (u_idx U) as [|i0 ir]; [congruence|]. clear Hidx EU.
+  cbn.
+  erewrite cl_update_acc;
+    [|exact HR|apply mirror_nonempty; [now rewrite <- Hlen|exact Htr]].
+  cbn. unfold synced_l, client_view. cbn. repeat split; reflexivity.
+Qed.
+
+Lemma src_step : forall p s x y hello,
+  p_mut p = false -> synced_l p s x hello ->
+  synced_l p (step p s (Src y)) x hello /\
+  sv_latest (st_sv (step p s (Src y))) = Some (mk_data (p_codec p) y).
+Proof.
+  intros p s x y hello Hmut Hsy.
+  destruct Hsy as [He [Hw [Hpe [Hco [Hst [Hne [Hv Hl]]]]]]].
+  unfold step. rewrite He. unfold do_src. rewrite Hmut.
+  unfold synced_l, client_view in *. cbn. repeat split; assumption.
+Qed.
+
+Lemma srcs_steps : forall p mid s x hello,
+  p_mut p = false -> synced_l p s x hello ->
+  synced_l p (exec p s (map Src mid)) x hello.
+Proof.
+  intros p mid. induction mid as [|a r IH]; intros s x hello Hmut Hsy; [exact Hsy|].
+  cbn [map]. rewrite exec_cons. apply IH; [exact Hmut|].
+  now apply src_step.
+Qed.
+
+(* the client-issued round: when the reply has been processed (the call
+   returns) the mirror is the snapshot the reply was computed from *)
+Lemma reply_round : forall p s x y hello,
+  p_mut p = false -> shallow (p_codec p) = false ->
+  synced_l p s x hello ->
+  sv_latest (st_sv s) = Some (mk_data (p_codec p) y) ->
+  length (s_time x) = length (s_time y) ->
+  cfg_wf (p_codec p) (length (s_time x)) = true ->
+  snaps_in_range x y = true ->
+  tracked (p_codec p) <> [] ->
+  synced_l p (exec p s [Reply; Write; Deliver]) y false /\
+  exec p s [Reply; Write; Settle] = exec p s [Reply; Write; Deliver].
+Proof.
+  intros p s x y hello Hmut Hsh Hsy Hlat Hlen Hwf Hrng Htr.
+  destruct Hsy as [He [Hw [Hpe [Hco [Hst [Hne [Hv Hl]]]]]]].
+  destruct s as [sv cl wire pend cur err sil rej syn np conn ip].
+  destruct cl as [t q m stuck need errs]. destruct sv as [last latest queue].
+  unfold client_view in Hv. cbn in He, Hw, Hpe, Hco, Hst, Hne, Hv, Hl, Hlat.
+  injection Hv as Ht Hq' Hm'. subst err wire pend conn stuck need t q m last latest.
+  pose proof (roundtrip_explicit _ x y Hsh Hlen Hwf Hrng) as HR.
+  assert (Hnn : mirror (p_codec p) y <> [])
+    by (apply mirror_nonempty; [now rewrite <- Hlen|exact Htr]).
+  remember (mk_upd (deep_prs (p_codec p) x y) (s_q y - s_q x) (s_m y - s_m x)
+             (checksum (sum64 (filter_time (s_time y) (tracked (p_codec p)))) (s_q y) (s_m y))) as U eqn:EU.
+  match goal with |- context [exec p ?S _] => set (S0 := S) end.
+  assert (E1 : step p S0 Reply
+               = set_pend (set_sv S0 (mk_server (mk_data (p_codec p) y)
+                                        (Some (mk_data (p_codec p) y)) queue))
+                          (Some (RUpd U))).
+  { unfold step, do_reply. subst S0. cbn [st_err st_sv sv_latest sv_last sv_queue]. rewrite Hmut.
+    rewrite (calc_upd_mk p y _ Hsh).
+    rewrite (calc_update_explicit _ x y hello Hsh Hlen Hwf Hrng). now rewrite <- EU. }
+  clear EU.
+  rewrite !exec_cons, !exec_nil, E1. subst S0.
+  cbn.
+  erewrite cl_update_acc; [|exact HR|exact Hnn].
+  cbn. split; [|reflexivity].
+  unfold synced_l, client_view. cbn. repeat split; reflexivity.
+Qed.
+
+(* ---------------------------------------------------------------- rounds *)
+
+Lemma init_synced : forall p x,
+  (p_hello_m p = true \/ s_m x = 0) -> synced_l p (init p x) x true.
+Proof.
+  intros p x Hm. unfold synced_l, init, client_view. cbn.
+  repeat split; try reflexivity.
+  destruct Hm as [Hm|Hm]; [now rewrite Hm|].
+  rewrite Hm. now destruct (p_hello_m p).
+Qed.
+
+Lemma round_step : forall p s x hello r,
+  p_mut p = false -> shallow (p_codec p) = false ->
+  cfg_wf (p_codec p) (length (s_time x)) = true -> tracked (p_codec p) <> [] ->
+  synced_l p s x hello ->
+  length (s_time x) = length (s_time (round_end r)) ->
+  snaps_in_range x (round_end r) = true ->
+  match r with
+  | RPush _ y => s_q x <> s_q y /\ tracked_changed (p_codec p) x y = true
+  | RReply _ _ => True
+  end ->
+  synced_l p (exec p s (round_events r)) (round_end r) false.
+Proof.
+  intros p s x hello r Hmut Hsh Hwf Htr Hsy Hlen Hrng Hr.
+  destruct r as [mid y|mid y]; cbn [round_events round_end] in *.
+  - rewrite exec_app, exec_cons.
+    pose proof (srcs_steps p mid s x hello Hmut Hsy) as H1.
+    destruct (src_step p _ x y hello Hmut H1) as [H2 H3].
+    destruct Hr as [Hq Hch].
+    now apply (push_round p _ x y hello).
+  - rewrite exec_app, exec_cons.
+    pose proof (srcs_steps p mid s x hello Hmut Hsy) as H1.
+    destruct (src_step p _ x y hello Hmut H1) as [H2 H3].
+    destruct (reply_round p _ x y hello Hmut Hsh H2 H3 Hlen Hwf Hrng Htr) as [H4 H5].
+    now rewrite H5.
+Qed.
+
+Lemma rounds_synced : forall p rs s x hello,
+  p_mut p = false -> shallow (p_codec p) = false ->
+  cfg_wf (p_codec p) (length (s_time x)) = true -> tracked (p_codec p) <> [] ->
+  synced_l p s x hello -> rounds_ok (p_codec p) x rs ->
+  exists h', synced_l p (exec p s (flat_map round_events rs)) (last_end x rs) h'.
+Proof.
+  intros p rs. induction rs as [|r rest IH]; intros s x hello Hmut Hsh Hwf Htr Hsy Hok.
+  - exists hello. exact Hsy.
+  - cbn [flat_map last_end]. rewrite exec_app.
+    cbn [rounds_ok] in Hok. destruct Hok as [Hlen [Hrng [Hr Hrest]]].
+    apply (IH _ (round_end r) false Hmut Hsh); [now rewrite <- Hlen|exact Htr| |exact Hrest].
+    apply (round_step p s x hello r); try assumption. destruct r; exact Hr.
+Qed.
+
+(* the synchronised entries of mirror c y are the source's *)
+Lemma mirror_tracked : forall c y, cfg_wf c (length (s_time y)) = true ->
+  mir_tracked c (mirror c y) = src_tracked c (s_time y).
+Proof.
+  intros c y Hwf. unfold mir_tracked, src_tracked, filter_time.
+  assert (H : forall pp, In pp (client_tracked c) ->
+            nth pp (mirror c y) 0 = nth (sigma c pp) (s_time y) 0)
+    by (intros pp Hp; now apply (mirror_nth c _ Hwf y eq_refl)).
+  rewrite (map_ext_in _ _ _ H).
+  unfold client_tracked, sigma. destruct (sync_schema c); [reflexivity|].
+  rewrite <- (map_map (fun pp => nth pp (tracked c) 0%nat) (fun i => nth i (s_time y) 0)).
+  f_equal. clear. induction (tracked c) as [|a r IH]; [reflexivity|].
+  cbn [length seq map nth]. f_equal. rewrite <- seq_shift, map_map. exact IH.
+Qed.
+
+Lemma synced_mirror_ok : forall p s y h,
+  shallow (p_codec p) = false -> cfg_wf (p_codec p) (length (s_time y)) = true ->
+  synced_l p s y h -> mirror_ok (p_codec p) (s_time y) (cl_t (st_cl s)) = true.
+Proof.
+  intros p s y h Hsh Hwf Hsy. destruct Hsy as [_ [_ [_ [_ [_ [_ [Hv _]]]]]]].
+  unfold client_view in Hv. injection Hv as Ht _ _. rewrite Ht.
+  unfold mirror_ok, ticks_ok. rewrite Hsh, (mirror_tracked _ y Hwf).
+  apply list_N_eqb_refl.
+Qed.
+
+Lemma last_end_length : forall c rs x, rounds_ok c x rs ->
+  length (s_time (last_end x rs)) = length (s_time x).
+Proof.
+  intros c rs. induction rs as [|r rest IH]; intros x H; [reflexivity|].
+  cbn [last_end]. cbn [rounds_ok] in H. destruct H as [Hl [_ [_ Hr]]].
+  rewrite (IH _ Hr). now symmetry.
+Qed.
+
+Theorem inorder_converges_lemma : forall p s0 rs,
+  p_mut p = false -> shallow (p_codec p) = false ->
+  cfg_wf (p_codec p) (length (s_time s0)) = true -> tracked (p_codec p) <> [] ->
+  (p_hello_m p = true \/ s_m s0 = 0) ->
+  rounds_ok (p_codec p) s0 rs ->
+  let st := exec p (init p s0) (flat_map round_events rs) in
+  let y := last_end s0 rs in
+  client_view st = (mirror (p_codec p) y, s_q y, s_m y) /\
+  mirror_ok (p_codec p) (s_time y) (cl_t (st_cl st)) = true /\
+  quiescent st = true /\ st_err st = false /\ cl_stuck (st_cl st) = false.
+Proof.
+  intros p s0 rs Hmut Hsh Hwf Htr Hm Hok st y.
+  destruct (rounds_synced p rs (init p s0) s0 true Hmut Hsh Hwf Htr (init_synced p s0 Hm) Hok)
+    as [h' Hsy].
+  fold st in Hsy. fold y in Hsy.
+  assert (Hwfy : cfg_wf (p_codec p) (length (s_time y)) = true)
+    by (unfold y; now rewrite (last_end_length _ rs s0 Hok)).
+  pose proof (synced_mirror_ok p st y h' Hsh Hwfy Hsy) as Hmo.
+  destruct Hsy as [He [Hw [Hpe [Hco [Hst [Hne [Hv Hl]]]]]]].
+  repeat split; try assumption.
+  unfold quiescent. now rewrite Hw, Hpe, Hne.
+Qed.
+
+Lemma cl_update_rej : forall p c u,
+  rejected (client_apply (p_codec p) u (cl_t c) (cl_q c) (cl_m c)) = true ->
+  cl_update p c u = Some (c, false).
+Proof.
+  intros p c u H. unfold cl_update.
+  destruct (client_apply (p_codec p) u (cl_t c) (cl_q c) (cl_m c)) as [[[[t' q'] m'] acc]|];
+    [|discriminate].
+  cbn in H. apply negb_true_iff in H. now rewrite H.
+Qed.
+
+Local Opaque client_apply calc_update calc_update_muts w8 w16 w32 w64 hello_time mk_data mirror checksum.
+
+(* the server's view is consistent with snapshot x, the client holds anything *)
+Definition srv_at_l (p : pcfg) (s : st) (x : snap) (hello : bool) : Prop :=
+  st_err s = false /\ st_wire s = [] /\ st_pend s = None /\ st_conn s = true /\
+  cl_stuck (st_cl s) = false /\ cl_need (st_cl s) = false /\
+  sv_last (st_sv s) = last_data (p_codec p) hello x.
+
+(* a detected drift on the push path: the update is rejected, nothing else
+   happens (no Sync is requested), the server believes the client is current *)
+Lemma push_drift_ignored_lemma : forall p s x y hello,
+  p_mut p = false -> shallow (p_codec p) = false ->
+  srv_at_l p s x hello ->
+  sv_latest (st_sv s) = Some (mk_data (p_codec p) y) ->
+  length (s_time x) = length (s_time y) ->
+  cfg_wf (p_codec p) (length (s_time x)) = true ->
+  snaps_in_range x y = true ->
+  s_q x <> s_q y -> tracked_changed (p_codec p) x y = true ->
+  length (cl_t (st_cl s)) = length (mirror (p_codec p) x) ->
+  Forall (fun v => v < w64) (cl_t (st_cl s)) -> cl_q (st_cl s) < w64 -> cl_m (st_cl s) < w32 ->
+  drifted (p_codec p) x (cl_t (st_cl s)) (cl_q (st_cl s)) (cl_m (st_cl s)) = true ->
+  let s' := exec p s [Push; Settle] in
+  st_cl s' = st_cl s /\ st_rejpush s' = true /\
+  sv_last (st_sv s') = mk_data (p_codec p) y /\
+  srv_at_l p s' y false.
+Proof.
+  intros p s x y hello Hmut Hsh Hsa Hlat Hlen Hwf Hrng Hq Hch Hlt Hb1 Hb2 Hb3 Hdr s'.
+  destruct Hsa as [He [Hw [Hpe [Hco [Hst [Hne Hl]]]]]].
+  destruct s as [sv cl wire pend cur err sil rej syn np conn ip].
+  destruct cl as [t q m stuck need errs]. destruct sv as [last latest queue].
+  cbn in He, Hw, Hpe, Hco, Hst, Hne, Hl, Hlat, Hlt, Hb1, Hb2, Hb3, Hdr.
+  subst err wire pend conn stuck need last latest.
+  destruct (checksum_detects_lemma (p_codec p) x y hello t q m Hsh Hlen Hwf Hrng Hlt Hb1 Hb2 Hb3 Hdr)
+    as [u [Hu Hrej]].
+  assert (Hu' : last_data (p_codec p) hello x = (if hello then hello_data (p_codec p) x else mk_data (p_codec p) x))
+    by reflexivity.
+  rewrite <- Hu' in Hu.
+  rewrite (calc_update_explicit _ x y hello Hsh Hlen Hwf Hrng) in Hu.
+  injection Hu as Hu.
+  eassert (E : s' = _).
+  { subst s'.
+  unfold exec. cbn [fold_left]. unfold step at 2. cbn [st_err].
+  unfold do_push.
+  cbn [st_sv st_conn negb sv_latest sv_last].
+  rewrite d_q_last, d_q_mk.
+  replace (s_q x =? s_q y) with false by (symmetry; now apply N.eqb_neq).
+  rewrite andb_false_r, Hmut.
+  destruct (mk_data_some (p_codec p) y) as [ty Hty]. rewrite Hty.
+  rewrite (calc_upd_mk p y _ Hsh).
+  rewrite (calc_update_explicit _ x y hello Hsh Hlen Hwf Hrng).
+  rewrite Hu.
+  assert (Hidx : u_idx u <> []).
+  { subst u. cbn [u_idx mk_upd]. intros Hn. apply (changed_prs _ x y Hlen Hwf Hch).
+    now apply idx_of_nil. }
+  destruct (u_idx u) as [|i0 ir]; [congruence|]. clear Hidx Hu.
+  cbn.
+  erewrite cl_update_rej; [|exact Hrej].
+  cbn. reflexivity. }
+  rewrite E. unfold srv_at_l. cbn. repeat split; try reflexivity.
+  now rewrite orb_true_r.
+Qed.
+
+Lemma settle_eq : forall p f s,
+  settle p (S f) s =
+  let s2 := do_sync_serve p s in
+  match st_wire s2 with
+  | [] => s2
+  | _ => if cl_stuck (st_cl s2) then s2 else settle p f (do_deliver p s2)
+  end.
+Proof. reflexivity. Qed.
+
+Local Opaque cl_sync settle.
+
+(* the client side of a rejected reply: Sync requested, served, applied *)
+Lemma rejected_reply_settles : forall p sv t q m errs cur sil rej syn np ip u f,
+  cl_update p ({| cl_t := t; cl_q := q; cl_m := m; cl_stuck := false; cl_need := false; cl_errs := errs |}) u = Some ({| cl_t := t; cl_q := q; cl_m := m; cl_stuck := false; cl_need := false; cl_errs := errs |}, false) ->
+  s_time cur <> [] -> length (s_time cur) = length t ->
+  settle p (S (S (S f)))
+    {| st_sv := sv; st_cl := {| cl_t := t; cl_q := q; cl_m := m; cl_stuck := false; cl_need := false; cl_errs := errs |}; st_wire := [WReply (RUpd u)];
+       st_pend := None; st_cur := cur; st_err := false; st_silent := sil; st_rejpush := rej;
+       st_synced := syn; st_npush := np; st_conn := true; st_initpush := ip |}
+  = {| st_sv := sv;
+       st_cl := {| cl_t := s_time cur; cl_q := s_q cur; cl_m := if p_sync_m p then s_m cur else 0; cl_stuck := false; cl_need := false; cl_errs := errs |};
+       st_wire := []; st_pend := None; st_cur := cur; st_err := false; st_silent := sil;
+       st_rejpush := rej; st_synced := true; st_npush := np; st_conn := true; st_initpush := ip |}.
+Proof.
+  intros p sv t q m errs cur sil rej syn np ip u f Hu Hne Hl.
+  rewrite settle_eq. cbn -[cl_sync settle cl_update].
+  rewrite Hu. cbn -[cl_sync settle cl_update].
+  rewrite settle_eq. cbn -[cl_sync settle cl_update].
+  rewrite cl_sync_ok by (cbn; assumption).
+  rewrite settle_eq. cbn -[cl_sync settle cl_update].
+  reflexivity.
+Qed.
+
+Lemma reply_drift_resyncs_lemma : forall p s x y hello,
+  p_mut p = false -> shallow (p_codec p) = false ->
+  srv_at_l p s x hello ->
+  sv_latest (st_sv s) = Some (mk_data (p_codec p) y) -> st_cur s = y ->
+  length (s_time x) = length (s_time y) ->
+  cfg_wf (p_codec p) (length (s_time x)) = true ->
+  snaps_in_range x y = true ->
+  length (cl_t (st_cl s)) = length (mirror (p_codec p) x) ->
+  Forall (fun v => v < w64) (cl_t (st_cl s)) -> cl_q (st_cl s) < w64 -> cl_m (st_cl s) < w32 ->
+  drifted (p_codec p) x (cl_t (st_cl s)) (cl_q (st_cl s)) (cl_m (st_cl s)) = true ->
+  s_time y <> [] -> length (s_time y) = length (cl_t (st_cl s)) ->
+  let s' := exec p s [Reply; Write; Settle] in
+  client_view s' = (s_time y, s_q y, if p_sync_m p then s_m y else 0) /\
+  st_synced s' = true /\ quiescent s' = true /\ st_err s' = false /\
+  sv_last (st_sv s') = mk_data (p_codec p) y.
+Proof.
+  intros p s x y hello Hmut Hsh Hsa Hlat Hcur Hlen Hwf Hrng Hlt Hb1 Hb2 Hb3 Hdr Hne0 Hly s'.
+  destruct Hsa as [He [Hw [Hpe [Hco [Hst [Hne Hl]]]]]].
+  destruct s as [sv cl wire pend cur err sil rej syn np conn ip].
+  destruct cl as [t q m stuck need errs]. destruct sv as [last latest queue].
+  cbn in He, Hw, Hpe, Hco, Hst, Hne, Hl, Hlat, Hlt, Hb1, Hb2, Hb3, Hdr, Hcur, Hly.
+  subst err wire pend conn stuck need last latest cur.
+  destruct (checksum_detects_lemma (p_codec p) x y hello t q m Hsh Hlen Hwf Hrng Hlt Hb1 Hb2 Hb3 Hdr)
+    as [u [Hu Hrej]].
+  assert (Hu' : last_data (p_codec p) hello x = (if hello then hello_data (p_codec p) x else mk_data (p_codec p) x))
+    by reflexivity.
+  rewrite <- Hu' in Hu.
+  assert (Hcu : cl_update p {| cl_t := t; cl_q := q; cl_m := m; cl_stuck := false; cl_need := false; cl_errs := errs |} u
+                = Some ({| cl_t := t; cl_q := q; cl_m := m; cl_stuck := false; cl_need := false; cl_errs := errs |}, false))
+    by (apply cl_update_rej; exact Hrej).
+  eassert (E : s' = _).
+  { subst s'.
+    match goal with |- context [exec p ?S _] => set (S0 := S) end.
+    assert (E1 : step p S0 Reply
+               = set_pend (set_sv S0 (mk_server (mk_data (p_codec p) y)
+                                        (Some (mk_data (p_codec p) y)) queue))
+                          (Some (RUpd u))).
+    { unfold step, do_reply. subst S0. cbn [st_err st_sv sv_latest sv_last sv_queue]. rewrite Hmut.
+      rewrite (calc_upd_mk p y _ Hsh). now rewrite Hu. }
+    rewrite !exec_cons, !exec_nil, E1. subst S0.
+    unfold step. cbn -[cl_sync settle cl_update].
+    unfold set_pend, set_wire, set_sv.
+    cbn [st_sv st_cl st_wire st_pend st_cur st_err st_silent st_rejpush st_synced st_npush st_conn st_initpush].
+    rewrite (rejected_reply_settles p _ t q m errs y sil rej syn np ip u _ Hcu Hne0 Hly).
+    reflexivity. }
+  rewrite E. unfold client_view, quiescent. cbn. repeat split; reflexivity.
+Qed.
+
+Local Transparent cl_sync settle.
+
+(* ---------------------------------------------------------------- staleness *)
+
+Lemma list_N_eqb_eq : forall a b, list_N_eqb a b = true -> a = b.
+Proof.
+  induction a as [|x r IH]; intros [|y s] H; cbn in H; try discriminate; [reflexivity|].
+  apply andb_true_iff in H. destruct H as [H1 H2]. apply N.eqb_eq in H1. subst y.
+  f_equal. now apply IH.
+Qed.
+
+Lemma changed_not_ticks_ok : forall c a b,
+  cfg_wf c (length (s_time a)) = true ->
+  tracked_changed c a b = true ->
+  ticks_ok c (s_time b) (mirror c a) = false.
+Proof.
+  intros c a b Hwf Hch. unfold ticks_ok. rewrite (mirror_tracked c a Hwf).
+  destruct (list_N_eqb (src_tracked c (s_time a)) (src_tracked c (s_time b))) eqn:E; [|reflexivity].
+  exfalso. apply list_N_eqb_eq in E. unfold src_tracked, filter_time in E.
+  unfold tracked_changed in Hch. apply existsb_exists in Hch. destruct Hch as [i [Hi Hne]].
+  apply negb_true_iff, N.eqb_neq in Hne. apply Hne.
+  clear Hne Hwf. induction (tracked c) as [|j r IH]; [destruct Hi|].
+  cbn [map] in E. injection E as E1 E2. destruct Hi as [Hi|Hi]; [now subst j|now apply IH].
+Qed.
+
+(* nothing to export and nothing in flight: further push runs change nothing *)
+Lemma push_noop : forall p s d,
+  st_err s = false -> st_wire s = [] -> cl_need (st_cl s) = false ->
+  sv_latest (st_sv s) = Some d -> sv_last (st_sv s) = d ->
+  exec p s [Push; Settle] = s.
+Proof.
+  intros p s d He Hw Hn Hla Hl.
+  destruct s as [sv cl wire pend cur err sil rej syn np conn ip].
+  destruct cl as [t q m stuck need errs]. destruct sv as [last latest queue].
+  cbn in He, Hw, Hn, Hla, Hl. subst err wire need latest last.
+  unfold exec, step, do_push. cbn [fold_left st_err st_conn st_sv sv_latest sv_last].
+  rewrite !N.eqb_refl. cbn [andb].
+  destruct (negb conn); cbn; unfold do_sync_serve; cbn; reflexivity.
+Qed.
+
+Local Opaque client_apply calc_update calc_update_muts w8 w16 w32 w64 hello_time mk_data mirror checksum.
+
+Section Steps.
+  Variable p : pcfg.
+  Hypothesis Hmut : p_mut p = false.
+  Hypothesis Hsh : shallow (p_codec p) = false.
+  Let c := p_codec p.
+
+  Lemma st_src : forall l (la : option tdata) qu cl wire pend cur sil rej syn np y,
+    step p (mkst (mk_server l la qu) cl wire pend cur sil rej syn np) (Src y)
+    = mkst (mk_server l (Some (mk_data c y)) qu) cl wire pend y sil rej syn np.
+  Proof. intros. unfold step, do_src, mkst. cbn. now rewrite Hmut. Qed.
+
+  Lemma st_reply : forall l qu cl wire pend cur sil rej syn np y u,
+    calc_update c false (mk_data c y) l = Some u ->
+    step p (mkst (mk_server l (Some (mk_data c y)) qu) cl wire pend cur sil rej syn np) Reply
+    = mkst (mk_server (mk_data c y) (Some (mk_data c y)) qu) cl wire (Some (RUpd u)) cur sil rej syn np.
+  Proof.
+    intros. unfold step, do_reply, mkst. cbn [st_err st_sv sv_latest sv_last sv_queue mk_server].
+    rewrite Hmut. rewrite (calc_upd_mk p y _ Hsh). fold c. rewrite H. reflexivity.
+  Qed.
+
+  Lemma st_push : forall l qu cl wire pend cur sil rej syn np y u,
+    d_q l <> s_q y ->
+    calc_update c false (mk_data c y) l = Some u -> u_idx u <> [] ->
+    step p (mkst (mk_server l (Some (mk_data c y)) qu) cl wire pend cur sil rej syn np) Push
+    = mkst (mk_server (mk_data c y) (Some (mk_data c y)) qu) cl (wire ++ [WPush u]) pend cur
+           sil rej syn (S np).
+  Proof.
+    intros l qu cl wire pend cur sil rej syn np y u Hq Hu Hi.
+    unfold step, do_push, mkst. cbn [st_err st_conn negb st_sv sv_latest sv_last mk_server].
+    rewrite d_q_mk. replace (d_q l =? s_q y) with false by (symmetry; now apply N.eqb_neq).
+    rewrite andb_false_r, Hmut.
+    destruct (mk_data_some c y) as [ty Hty]. fold c. rewrite Hty.
+    rewrite (calc_upd_mk p y _ Hsh). fold c. rewrite Hu.
+    destruct (u_idx u) as [|i0 ir]; [congruence|]. reflexivity.
+  Qed.
+
+  Lemma st_write : forall sv cl wire r cur sil rej syn np,
+    step p (mkst sv cl wire (Some r) cur sil rej syn np) Write
+    = mkst sv cl (wire ++ [WReply r]) None cur sil rej syn np.
+  Proof. reflexivity. Qed.
+
+  Lemma st_deliver_push_rej : forall sv t q m errs w pend cur sil rej syn np u,
+    rejected (client_apply c u t q m) = true ->
+    step p (mkst sv (mk_client t q m false false errs) (WPush u :: w) pend cur sil rej syn np) Deliver
+    = mkst sv (mk_client t q m false false errs) w pend cur sil true syn np.
+  Proof.
+    intros. unfold step, do_deliver, mkst. cbn [st_err st_cl cl_stuck mk_client st_wire].
+    erewrite cl_update_rej; [|exact H]. cbn. now rewrite orb_true_r.
+  Qed.
+
+  Lemma st_deliver_reply_acc : forall sv t q m errs w pend cur sil rej syn np u t' q' m',
+    client_apply c u t q m = Some (t', q', m', true) -> t' <> [] ->
+    step p (mkst sv (mk_client t q m false false errs) (WReply (RUpd u) :: w) pend cur sil rej syn np) Deliver
+    = mkst sv (mk_client t' q' m' false false errs) w pend cur sil rej syn np.
+  Proof.
+    intros. unfold step, do_deliver, mkst. cbn [st_err st_cl cl_stuck mk_client st_wire].
+    erewrite cl_update_acc; [|exact H|exact H0]. reflexivity.
+  Qed.
+End Steps.
+
+(* (5) a reply overtaken by a push, for all snapshots: the push is rejected
+   and dropped, the reply is accepted, the server believes the client holds
+   the later snapshot, and nothing ever repairs it *)
+Theorem reorder_stale_lemma : forall p x y1 y2 hello l0 la qu errs sil rej syn np,
+  p_mut p = false -> shallow (p_codec p) = false ->
+  l0 = last_data (p_codec p) hello x ->
+  length (s_time x) = length (s_time y1) -> length (s_time y1) = length (s_time y2) ->
+  cfg_wf (p_codec p) (length (s_time x)) = true -> tracked (p_codec p) <> [] ->
+  snaps_in_range x y1 = true -> snaps_in_range y1 y2 = true ->
+  s_q y1 <> s_q y2 -> tracked_changed (p_codec p) y1 y2 = true ->
+  Forall (fun v => v < w64) (mirror (p_codec p) x) -> s_q x < w64 -> s_m x < w32 ->
+  (* the checksums of x and y1 differ (mod 256) *)
+  drifted (p_codec p) y1 (mirror (p_codec p) x) (s_q x) (s_m x) = true ->
+  let s := mkst (mk_server l0 la qu) (mk_client (mirror (p_codec p) x) (s_q x) (s_m x) false false errs)
+                [] None x sil rej syn np in
+  let st := exec p s [Src y1; Reply; Src y2; Push; Deliver; Write; Deliver] in
+  client_view st = (mirror (p_codec p) y1, s_q y1, s_m y1) /\
+  sv_last (st_sv st) = mk_data (p_codec p) y2 /\ st_rejpush st = true /\
+  quiescent st = true /\ st_err st = false /\ cl_stuck (st_cl st) = false /\
+  mirror_ok (p_codec p) (s_time y2) (cl_t (st_cl st)) = false /\
+  forall n, exec p st (concat (repeat [Push; Settle] n)) = st.
+Proof.
+  intros p x y1 y2 hello l0 la qu errs sil rej syn np Hmut Hsh Hl0 Hlen1 Hlen2 Hwf Htr Hr1 Hr2
+         Hq Hch Hb1 Hb2 Hb3 Hdr s st.
+  set (c := p_codec p) in *.
+  assert (Hwf1 : cfg_wf c (length (s_time y1)) = true) by now rewrite <- Hlen1.
+  (* the reply x -> y1 *)
+  pose proof (calc_update_explicit c x y1 hello Hsh Hlen1 Hwf Hr1) as HU1.
+  pose proof (roundtrip_explicit c x y1 Hsh Hlen1 Hwf Hr1) as HR1.
+  remember (mk_upd (deep_prs c x y1) (s_q y1 - s_q x) (s_m y1 - s_m x)
+             (checksum (sum64 (filter_time (s_time y1) (tracked c))) (s_q y1) (s_m y1))) as U1 eqn:E1.
+  clear E1. rewrite <- Hl0 in HU1.
+  (* the push y1 -> y2 *)
+  pose proof (calc_update_explicit c y1 y2 false Hsh Hlen2 Hwf1 Hr2) as HU2.
+  rewrite last_data_false in HU2.
+  assert (Hlm : length (mirror c x) = length (mirror c y1)).
+  { rewrite (mirror_length c _ x eq_refl), (mirror_length c _ y1 eq_refl). now rewrite Hlen1. }
+  destruct (checksum_detects_lemma c y1 y2 false (mirror c x) (s_q x) (s_m x)
+              Hsh Hlen2 Hwf1 Hr2 Hlm Hb1 Hb2 Hb3 Hdr) as [u2 [Hu2 Hrej2]].
+  cbv zeta in Hu2. change (if false then hello_data c y1 else mk_data c y1) with (mk_data c y1) in Hu2.
+  assert (Hidx : u_idx u2 <> []).
+  { rewrite HU2 in Hu2. injection Hu2 as Hu2. subst u2. cbn [u_idx mk_upd]. intros Hn.
+    apply (changed_prs c y1 y2 Hlen2 Hwf1 Hch). now apply idx_of_nil. }
+  clear HU2.
+  assert (Hnn : mirror c y1 <> []) by (apply mirror_nonempty; assumption).
+  assert (E : st = mkst (mk_server (mk_data c y2) (Some (mk_data c y2)) qu)
+                        (mk_client (mirror c y1) (s_q y1) (s_m y1) false false errs)
+                        [] None y2 sil true syn (S np)).
+  { subst st s. rewrite !exec_cons, exec_nil.
+    rewrite (st_src p Hmut). fold c.
+    rewrite (st_reply p Hmut Hsh _ _ _ _ _ _ _ _ _ _ _ U1 HU1). fold c.
+    rewrite (st_src p Hmut). fold c.
+    rewrite (st_push p Hmut Hsh _ _ _ _ _ _ _ _ _ _ _ u2); fold c;
+      [|rewrite d_q_mk; exact Hq|exact Hu2|exact Hidx].
+    cbn [app].
+    rewrite (st_deliver_push_rej p _ _ _ _ _ _ _ _ _ _ _ _ u2 Hrej2).
+    rewrite st_write. cbn [app].
+    rewrite (st_deliver_reply_acc p _ _ _ _ _ _ _ _ _ _ _ _ U1 _ _ _ HR1 Hnn).
+    reflexivity. }
+  rewrite E. unfold client_view, quiescent, mkst. cbn.
+  repeat split; try reflexivity.
+  - unfold mirror_ok. fold c. rewrite Hsh. now apply changed_not_ticks_ok.
+  - intros n. apply repeat_fix.
+    apply (push_noop p _ (mk_data c y2)); reflexivity.
+Qed.
+
+(* the client-issued round as a whole, from any synced state *)
+Theorem reply_visible_lemma : forall p s x y hello mid,
+  p_mut p = false -> shallow (p_codec p) = false ->
+  synced_l p s x hello ->
+  length (s_time x) = length (s_time y) ->
+  cfg_wf (p_codec p) (length (s_time x)) = true ->
+  snaps_in_range x y = true ->
+  tracked (p_codec p) <> [] ->
+  let s1 := exec p s (map Src mid ++ [Src y; Reply; Write; Deliver]) in
+  synced_l p s1 y false /\
+  mirror_ok (p_codec p) (s_time y) (cl_t (st_cl s1)) = true /\
+  exec p s (map Src mid ++ [Src y; Reply; Write; Settle]) = s1.
+Proof.
+  intros p s x y hello mid Hmut Hsh Hsy Hlen Hwf Hrng Htr s1. subst s1.
+  rewrite !exec_app, !exec_cons.
+  pose proof (srcs_steps p mid s x hello Hmut Hsy) as H1.
+  destruct (src_step p _ x y hello Hmut H1) as [H2 H3].
+  destruct (reply_round p _ x y hello Hmut Hsh H2 H3 Hlen Hwf Hrng Htr) as [H4 H5].
+  split; [exact H4|]. split; [|exact H5].
+  apply (synced_mirror_ok p _ y false Hsh); [now rewrite <- Hlen|exact H4].
+Qed.
